@@ -9,7 +9,7 @@ W1 = "4 planners x 6 space families x generated worlds / parameters / seeds unde
 CHECKS = {
     "C01": (True, "exploration",
             "runtime monitor at the validity-checker boundary: every state of every returned path re-evaluated with the pure validity function; invalid-start cases checked against the required error",
-            "Returned paths of " + W1 + " incl. starts marginally (0, 1 ulp, 1e-9) and deeply inside obstacles, goal regions overlapping / covered by obstacles and scripted samples exactly on obstacle boundaries, invalid starts that already satisfy the goal, and degenerate-metric cases (invalid states at distance exactly 0 from the start: zero-weight component twins, antipodal quaternions) are re-validated state by state. Holds on the executions observed.",
+            "Returned paths of " + W1 + " incl. starts marginally (0, 1 ulp, 1e-9) and deeply inside obstacles, goal regions overlapping / covered by obstacles and scripted samples exactly on obstacle boundaries, invalid starts that already satisfy the goal, and degenerate-metric cases (invalid states at distance exactly 0 from the start: zero-weight component twins, antipodal quaternions) are re-validated state by state. Holds on the executions observed. Every 16th run re-uses a planner object that lived (and succeeded) on a 64 times larger, coarsest-resolution space of the same type before; multi-start problems also come with a valid first start outside the sampling box; PRM histories include a refused (marginally invalid) start followed by a query whose goal is a tiny ball around that state.",
             "Trusted: purity of the harness validity function; the world generator.",
             "DESIGN.md section 5 C01"),
     "C02": (True, "exploration",
@@ -44,12 +44,12 @@ CHECKS = {
             "DESIGN.md section 5 C07"),
     "C08": (True, "fault_enumeration",
             "reference-model monitor of the planner API state machine over call histories, sampler fault injection at every call index k < 12, out-of-range parameters, panic monitor over well-formed runs (thorough: + Miri)",
-            "Every call of 8 000 / 250 000 random histories (length <= 8; thorough: all sequences of length <= 5 on 48 worlds) is compared with a sequential model (uninitialised / unsampled / invalid start / answers the installed problem); uniform and goal samplers fail at call k for every k < 12; goal bias in {-0.1, 1.5, NaN, +-inf}; empty start list; negative / zero numeric parameters; 4 000 / 300 000 generated scenarios run under the panic monitor. Panics keyed on (planner, injected trigger) are the known finding K-3; any other panic or model mismatch is a violation.",
+            "Every call of 8 000 / 250 000 random histories (length <= 8; thorough: all sequences of length <= 5 on 48 worlds) is compared with a sequential model (uninitialised / unsampled / invalid start / answers the installed problem); uniform and goal samplers fail at call k for every k < 12; goal bias in {-0.1, 1.5, NaN, +-inf}; empty start list; negative / zero numeric parameters; 4 000 / 300 000 generated scenarios run under the panic monitor. Panics keyed on (planner, injected trigger) are the known finding K-3; any other panic or model mismatch is a violation. PRM histories also run with a failing goal sampler (incl. tiny goal regions) and with a second problem that shares the goal / space objects of the first and starts from a rejected state.",
             "Trusted: the reference model (40 lines), catch_unwind. After a panic the history stops.",
             "DESIGN.md section 5 C08"),
     "C15": (True, "exploration",
             "structural invariant hook checked at every quiescent point of single-stepped planners (snapshot H4), edge coverage from the query log",
-            "RRT / RRT-Connect / RRT* are single-stepped (a budget of half a sampler tick under the virtual clock = one iteration) through scripted samples over alphabets with duplicates, seam / antipodal and boundary states (3 000 / 200 000 random scripts, 30 % with a re-setup half-way, 25 % with a step that equals a letter distance exactly; all scripts up to depth 4 - thorough: 5 on a quarter of the worlds - over a 6-letter alphabet on 6 / 96 worlds); after every step the snapshot is checked for parents in range, single root = start / goal sample, acyclicity (bounded walk), node validity (goal-side root included), edge length and motion-check coverage; the same on the trees left by whole solve calls of 8-68 iterations; problems may list further start states (extra roots admissible for valid listed states only).",
+            "RRT / RRT-Connect / RRT* are single-stepped (a budget of half a sampler tick under the virtual clock = one iteration) through scripted samples over alphabets with duplicates, seam / antipodal and boundary states (3 000 / 200 000 random scripts, 30 % with a re-setup half-way, 25 % with a step that equals a letter distance exactly; all scripts up to depth 4 - thorough: 5 on a quarter of the worlds - over a 6-letter alphabet on 6 / 96 worlds); after every step the snapshot is checked for parents in range, single root = start / goal sample, acyclicity (bounded walk), node validity (goal-side root included), edge length and motion-check coverage; the same on the trees left by whole solve calls of 8-68 iterations; problems may list further start states (extra roots admissible for valid listed states only). A tenth of the traces start on a planner object with an earlier life on another (larger, coarser) space.",
             "Trusted: snapshot accessor (read-only clone); space's distance for coverage.",
             "DESIGN.md section 5 C15"),
     "C16": (True, "exploration",
@@ -59,12 +59,12 @@ CHECKS = {
             "DESIGN.md section 5 C16"),
     "C17": (True, "exploration",
             "transition monitor for RRT* (snapshot with costs before / after, per-step query log) plus RRT-vs-RRT* differential on the same seed",
-            "For every RRT* extension: cost = parent cost + edge, parent in the candidate set, no cheaper neighbour skipped unless a query on its motion was rejected, parent link and rewired links validated in that iteration, exactly the neighbours that become cheaper are re-parented, others untouched, recorded cost >= true branch length; 1 500 / 100 000 RRT-vs-RRT* pairs (same end state up to rounding, RRT* not longer; half with generator-consuming goal samplers, a fifth after a refused solve-before-setup); radii incl. 0 and negative.",
+            "For every RRT* extension: cost = parent cost + edge, parent in the candidate set, no cheaper neighbour skipped unless a query on its motion was rejected, parent link and rewired links validated in that iteration, exactly the neighbours that become cheaper are re-parented, others untouched, recorded cost >= true branch length; 1 500 / 100 000 RRT-vs-RRT* pairs (same end state up to rounding, RRT* not longer; half with generator-consuming goal samplers, a fifth after a refused solve-before-setup); radii incl. 0 and negative. A quarter of the RRT-vs-RRT* pairs run on planner objects that solved a problem on another space before.",
             "Trusted: tolerances; the existential treatment of tied nearest nodes.",
             "DESIGN.md section 5 C17"),
     "C18": (True, "exploration",
             "roadmap snapshot compared with the accepted samples of the event log, graph invariants, link completeness, reference multi-source BFS for every query",
-            "6 000 / 250 000 PRM life cycles (incl. a second life after a new setup) with exact sample budgets (virtual clock), scripted (incl. all scripts to depth 4) and planner-RNG samples, radii from isolated nodes to complete graphs plus NaN / inf / 0 / negative ones, obstacle-free and obstructed worlds, replaced problems, and a query that runs out of time in the middle of the graph search (every clock read costs a tick) followed by the same query with time.",
+            "6 000 / 250 000 PRM life cycles (incl. a second life after a new setup) with exact sample budgets (virtual clock), scripted (incl. all scripts to depth 4) and planner-RNG samples, radii from isolated nodes to complete graphs plus NaN / inf / 0 / negative ones, obstacle-free and obstructed worlds, replaced problems, and a query that runs out of time in the middle of the graph search (every clock read costs a tick) followed by the same query with time. Radii are also set one to three ulps above the distance of a scripted pair, and every life cycle ends with a query from a problem definition that shares the goal / space objects of the first.",
             "Trusted: reference BFS; start links bracketed between certain and possible in obstructed worlds (exact in obstacle-free ones).",
             "DESIGN.md section 5 C18"),
     "C09": (True, "exploration",
@@ -99,12 +99,12 @@ CHECKS = {
             "DESIGN.md section 5 C14"),
     "C19": (True, "exploration",
             "differential runtime check across the language boundary: the same seeded scenarios executed through oxmpl_py (Python callbacks with bit-identical arithmetic) and through the core, compared bit for bit",
-            "240 / 2400 scenarios (6 problem-definition variants x 4 planners x generated worlds / parameters / seeds) are run through the freshly built extension module; RRT / RRT-Connect / RRT* paths must equal the core's bit for bit (and make the same number of validity queries and goal-sampler calls; some goal samplers return states outside the goal; some resolution fractions lie outside (0,1]) and errors by kind, PRM paths must be sound under the same primitives; about 2300 wrapper probes over the C12 lattice compare ValueError-vs-Err, distances, extents and canonicalised angles bitwise.",
+            "240 / 2400 scenarios (6 problem-definition variants x 4 planners x generated worlds / parameters / seeds) are run through the freshly built extension module; RRT / RRT-Connect / RRT* paths must equal the core's bit for bit (and make the same number of validity queries and goal-sampler calls; some goal samplers return states outside the goal; some resolution fractions lie outside (0,1]) and errors by kind, PRM paths must be sound under the same primitives; about 2300 wrapper probes over the C12 lattice compare ValueError-vs-Err, distances, extents and canonicalised angles bitwise. A fifth of the scenarios use a step that is a whole number of motion-check intervals (query counts then react to the last bits of the resolution fraction); a tenth of the obstacle-free / plain ones start inside the goal with a sampler that returns the start (repeated-state answers).",
             "Trusted: CPython floats are IEEE doubles; a wall-clock time-out on the Python side makes that case inconclusive. The extension is rebuilt from /repo's working tree (cargo build -p oxmpl-py, debug profile).",
             "DESIGN.md section 5 C19"),
     "C20": (True, "fault_enumeration",
             "fault injection in Python callbacks (raise - seven exception classes incl. InterruptedError, KeyboardInterrupt and one whose __str__ raises - / None / str / int / float / list / (True, text) tuple / truthy non-bool object, on a fault region or at the k-th call for k < 10) with a differential oracle against the callback that returns False in the same situations and against the core on world + region",
-            "192 / 960 groups of runs per tier on seeded scenarios over all six Python problem variants and four planners; a failing callback must give the identical path / error as one returning False and never a path through the fault region; the goal object is itself callable and must never be consulted that way. Only the Python binding is executed: the JavaScript binding (oxmpl-js) cannot run in this image (no wasm32 target, no wasm-bindgen) - that half of the property is not covered.",
+            "192 / 960 groups of runs per tier on seeded scenarios over all six Python problem variants and four planners; a failing callback must give the identical path / error as one returning False and never a path through the fault region; the goal object is itself callable and must never be consulted that way. Only the Python binding is executed: the JavaScript binding (oxmpl-js) cannot run in this image (no wasm32 target, no wasm-bindgen) - that half of the property is not covered. Further fault shapes: a window of 130-400 consecutive failing calls after which the callback works again, and a zero-dimensional-array look-alike (item(), __bool__). Every run is also held to a load-independent invariant: validity queries that reached the Python callback >= goal samples drawn - 100.",
             "Trusted: determinism of the seeded planners (C07); PRM (wall-clock build) and timed-out runs are only checked for 'no state in the fault region'.",
             "DESIGN.md section 5 C20"),
 }
